@@ -60,8 +60,8 @@ func vfParamSpec(tag string, maxLen int, nameChar string) (vfParam, string) {
 			}
 		} else {
 			vfAssume(!vfIsSpace(c) && c != '"')
-			if p.name == "" {
-				vfAssume(c != '=') // word=word is the NAME=value form
+			if p.name == "" && i > 0 {
+				vfAssume(c != '=') // word=word is the NAME=value form (a leading '=' has no name before it)
 			}
 			text += string(rune(c))
 		}
